@@ -162,6 +162,8 @@ def box(cls, b):
         return CLASSES[cls]["box"](b)
     m = mod(cls)
     k = b["k"]
+    if k == "box" and b.get("word"):
+        return word_box(cls, b)
     if k == "box":
         kw = {} if data_of(b) is None else {"data": data_of(b)}
         if b.get("dag"):
@@ -175,6 +177,21 @@ def box(cls, b):
     if k == "cap":
         return m.Cap(ty(cls, [b["l"]]), ty(cls, [b["r"]]))
     raise HarnessError(k)
+
+
+def word_box(cls, b):
+    """ A grammar Word (signature Word(name, cod, dom=None, data=None)): a box
+    subclass whose constructor takes its arguments in another order. """
+    if cls == "rigid":
+        from discopy.grammar.pregroup import Word
+    elif cls == "biclosed":
+        from discopy.grammar.ccg import Word
+    else:
+        from discopy.grammar.cfg import Word
+    kw = {} if data_of(b) is None else {"data": data_of(b)}
+    dom, cod = (b["cod"], b["dom"]) if b.get("dag") else (b["dom"], b["cod"])
+    word = Word(str(b["name"]), ty(cls, cod), dom=ty(cls, dom), **kw)
+    return word.dagger() if b.get("dag") else word
 
 
 def build(spec, route="ctor"):
